@@ -541,8 +541,16 @@ def run(tier="quick"):
     from .C11 import ConfCap
     prog_all = facts.extract()
     bfns = [g_ for g_ in prog_all.units["conf.c"].functions.values() if g_.name.startswith("builtin_") and g_.cfg is not None]
-    nb1, nund1, samp1 = run_cap(chk, prog_all, bfns, rule="B1", noreturn=NORETURN, cap_factory=lambda p: ConfCap(p, noreturn=NORETURN),
+    # the two built-ins that accumulate text in a fixed buffer are in the strict scope (as in C11): every bound of theirs is
+    # proven on the reviewed tree, so a bound that can no longer be established is reported
+    from .C11 import STRICT_FUNCS
+    sfns = [g_ for g_ in bfns if g_.name in STRICT_FUNCS]
+    ofns = [g_ for g_ in bfns if g_.name not in STRICT_FUNCS]
+    nb1, nund1, samp1 = run_cap(chk, prog_all, ofns, rule="B1", noreturn=NORETURN, cap_factory=lambda p: ConfCap(p, noreturn=NORETURN),
                                 kinds={"lower", "upper", "null", "count", "cursor", "freed"})
+    nb1s, nund1s, samp1s = run_cap(chk, prog_all, sfns, rule="B1", noreturn=NORETURN, cap_factory=lambda p: ConfCap(p, noreturn=NORETURN),
+                                   kinds={"lower", "upper", "null", "count", "cursor", "freed"}, strict=True)
+    nb1, nund1, samp1 = nb1 + nb1s, nund1 + nund1s, samp1 + samp1s
     chk.count("builtins_analysed", nb1, floor=4)
     chk.count("undecided_builtin_obligations", nund1)
     chk.count("cursor_events", nchecked, floor=30)
